@@ -15,12 +15,17 @@ use symrt::prove_d;
 #[derive(Clone, Copy, Debug, PartialEq)]
 enum Ev {
     Open(&'static str, bool), // trader, buy?
+    /// opposite-side open whose notional equals the position's current notional at 1x: the
+    /// reversal arm that closes the position out exactly and opens nothing
+    Flatten(&'static str),
     Close(&'static str),
     Liq,
     NextBlock,
 }
 
-const ALPHABET: [Ev; 9] = [
+const ALPHABET: [Ev; 11] = [
+    Ev::Flatten(BOB),
+    Ev::Flatten(LIQ),
     Ev::Open(BOB, false),
     Ev::Open(LIQ, true),
     Ev::Open(LIQ, false),
@@ -70,10 +75,10 @@ fn run_seq(seq: &[Ev], partial: bool, sym_last: Option<&str>) {
                     liq_in_block = true;
                 }
             }
-            Ev::Open(..) | Ev::Close(..) => {
+            Ev::Open(..) | Ev::Close(..) | Ev::Flatten(..) => {
                 let (who, buy): (&'static str, bool) = match ev {
                     Ev::Open(w, b) => (*w, *b),
-                    Ev::Close(w) => (*w, false),
+                    Ev::Close(w) | Ev::Flatten(w) => (*w, false),
                     _ => unreachable!(),
                 };
                 let pos = r.w.position(0, who);
@@ -92,6 +97,17 @@ fn run_seq(seq: &[Ev], partial: bool, sym_last: Option<&str>) {
                         };
                         r.step(Op::Open { who, side: if buy { Side::Buy } else { Side::Sell }, margin: m, lev: Uint128::new(2 * d), limit: Uint128::zero(), funds: None })
                     }
+                    Ev::Flatten(_) => {
+                        // notional of the whole position at the current spot price
+                        let n = match (&pos, r.w.unrealized(0, who, margined_perp::margined_engine::PnlCalcOption::SpotPrice)) {
+                            (Some(p), Ok(u)) if !p.size.value.is_zero() => Some((u.position_notional, p.size.negative)),
+                            _ => None,
+                        };
+                        match n {
+                            Some((notional, is_short)) => r.step(Op::Open { who, side: if is_short { Side::Buy } else { Side::Sell }, margin: notional, lev: Uint128::new(d), limit: Uint128::zero(), funds: None }),
+                            None => continue,
+                        }
+                    }
                     _ => {
                         if last && sym_last.is_some() {
                             symrt::set_full(true);
@@ -99,6 +115,13 @@ fn run_seq(seq: &[Ev], partial: bool, sym_last: Option<&str>) {
                         r.step(Op::Close { who, limit: Uint128::zero() })
                     }
                 };
+                // the per-position block stamp is maintained: whatever record the engine keeps for
+                // the sender after a successful action of theirs carries the current block
+                if t.tx.ok {
+                    if let Some(p1) = r.w.position(0, who) {
+                        prove_d("C16/successful-action-stamps-the-position-with-the-current-block", Cond::from_bool(p1.block_number == r.w.height()), format!("{} stamp={} height={}", what, p1.block_number, r.w.height()));
+                    }
+                }
                 if restricted {
                     prove_d("C16/second-action-in-liquidation-block-rejected", Cond::from_bool(!t.tx.ok), what.clone());
                     mon::dump_unchanged("C16/rejected-second-action-changes-no-storage", &dump0, &r.w.dump(), &what);
@@ -162,6 +185,8 @@ pub fn scenarios(seed: u64) -> Vec<Scenario> {
         ("liq-bystander", vec![Liq, Open(EVE, true)]),
         ("liqopens-liq-next-liqopens", vec![Open(LIQ, true), Liq, NextBlock, Open(LIQ, true)]),
         ("liq-alice-reopens", vec![Liq, Open(ALICE, true)]),
+        ("liq-bobflattens-bobreopens", vec![Liq, Flatten(BOB), Open(BOB, false)]),
+        ("liqopens-next-liq-liqflattens-liqreopens", vec![Open(LIQ, false), NextBlock, Liq, Flatten(LIQ), Open(LIQ, false)]),
     ];
     for (n, seq) in ded {
         for partial in [false, true] {
